@@ -71,7 +71,7 @@ def strategy():
 
 
 def evaluate(env, c):
-    d = env.driver("ts-asan")
+    d = env.driver(c.get("variant", "ts-asan"))
     out = d.out
     items = list(c["items"])
     if not items or items[-1] != items[-1].rstrip(b" \t") or items[-1] == b"":
@@ -213,7 +213,7 @@ def main():
                        "harness processes above the generated chain (execdrv, sh/unshare, python) are part of the observed ancestor list",
                        "an ancestor with an empty kernel name counts as 'tree cannot be read' from that point upwards"]
     nw, per = (4, 300) if ctx.quick else (16, 2500)
-    pbt.run(ctx, {"ts-asan": b}, strategy, evaluate, classify, nw, per)
+    pbt.run(ctx, {"ts-asan": b, "nts-asan": ctx.run.build("nts-asan")}, strategy, evaluate, classify, nw, per, variants=["ts-asan", "ts-asan", "nts-asan"])
     if not ctx.replay:
         unreadable_tree_phase(ctx)
     ctx.finish()
